@@ -335,3 +335,195 @@ def c13(ctx):
         ctx, 'C13', [(1, gen_method('satisfactionHeuristic'))], 300, 6000,
         'random satisfaction requests: currentChoice absent / considered / known-only, explicit thresholds and both generated series, '
         'levels nobody meets, cost criteria, shuffled order', agree_col='agree')
+
+
+# -------------------------------------------------------------------------------------------------
+# bias-level properties decided per traced stage (columns of Check/Judge.judge_stage)
+SCOL = {name: i for i, name in enumerate(e2e.SCOLS)}
+
+
+def stage_signature(req, info, v):
+    b = info['bias']
+    p = b.get('props') if isinstance(b.get('props'), dict) else {}
+    st = info['stage']
+    cur = st.get('curBefore') or {}
+    return (req.get('preferenceFunction'), b.get('name'), p.get('ordering'), p.get('referenceCriterionType'),
+            p.get('function') if isinstance(p.get('function'), str) else None,
+            (p.get('applier') or {}).get('function') if isinstance(p.get('applier'), dict) else None,
+            len(cur.get('Criteria') or []), len(cur.get('ConsideredAlternatives') or []),
+            len(cur.get('NotConsideredAlternatives') or []) > 0, st.get('curAfter') is not None,
+            tuple(x.get('name') for x in e2e.enabled_biases(req)))
+
+
+def collect_stages(ctx, reqs):
+    """runs the requests with tracing; returns (stage infos, verdicts, per-request results)"""
+    terms, infos, ress = [], [], []
+    for r in reqs:
+        res = ctx.pipe.call({'op': 'trace', 'req': r})
+        ress.append(res)
+        for t, i in e2e.stage_terms(ctx.pipe, r, res):
+            if t is None:
+                ctx.violation('a traced stage could not be turned into a model term (unexpected shape): %s' % i['error'],
+                              {'broken': 'emitter', 'request': r, 'stage': i['stage']}, found_input=False)
+                continue
+            terms.append(t)
+            infos.append((r, res, i))
+    verd, logs = core.run_cases(ctx.pid + 's', 'judge_stage', terms, shard=50)
+    # longer random prefixes where the model ran out
+    again = [k for k, v in enumerate(verd) if v and v[0] == 10]
+    if again:
+        t2 = []
+        for k in again:
+            r, res, i = infos[k]
+            tt = [t for t, ii in e2e.stage_terms(ctx.pipe, r, res, 2048) if ii['stage'] is i['stage']]
+            t2.append(tt[0] if tt else terms[k])
+        v2, l2 = core.run_cases(ctx.pid + 'sx', 'judge_stage', t2, shard=10)
+        for k, v in zip(again, v2):
+            verd[k] = v
+    return infos, verd, ress, logs
+
+
+STAGE_TEXT = {1: 'model rejects what the code accepts', 2: 'the code fails where the model (the specified behaviour) succeeds',
+              3: 'states after the bias differ', 4: 'reports differ', 10: 'model out of random numbers', 11: 'exp oracle miss',
+              12: 'model out of fuel', 99: 'case file did not evaluate'}
+
+
+def stage_check(ctx, col, names, gens, n_quick, n_thorough, rule, extra=None, agree_names=None):
+    """col: checker column of judge_stage deciding the property for stages whose bias is in `names`
+    (None = all stages); the stage correspondence of those stages ties the model to the code."""
+    pid = ctx.pid
+    ctx.check_proofs()
+    rnd = ctx.rnd
+    if ctx.replay and 'request' in ctx.replay:
+        reqs = [ctx.replay['request']]
+    else:
+        reqs = load_corpus(pid)
+        ws = [g[0] for g in gens]
+        for _ in range(n_cases(ctx, n_quick, n_thorough)):
+            reqs.append(rnd.choices(gens, ws)[0][1](rnd))
+    infos, verd, ress, logs = collect_stages(ctx, reqs)
+    for r, res in zip(reqs, ress):
+        ctx.count('request/' + ('accepted' if res.get('ok') else 'rejected'))
+    broken = []
+    ci = SCOL[col] if col else None
+    for (req, res, info), v in zip(infos, verd):
+        name = info['bias'].get('name')
+        mine = names is None or name in names
+        if not mine:
+            continue
+        sig = stage_signature(req, info, v)
+        ctx.seen(sig, trivial=False)
+        ctx.count('stage/%s/%s' % (req.get('preferenceFunction'), name))
+        ctx.sample({'request': req, 'bias': info['bias'], 'report': info['stage'].get('props')}, limit=3)
+        if v == [99] or len(v) < len(e2e.SCOLS):
+            ctx.violation('case file did not evaluate', {'broken': 'Run/cases_%ss' % pid, 'log': logs[:1], 'request': req}, found_input=False)
+            continue
+        facts = {'method': req.get('preferenceFunction'), 'bias': name}
+        if ci is not None and v[ci] != 0:
+            ctx.violation('checker %s_ok rejects what the bias %s produced' % (col, name),
+                          {'request': req, 'bias': info['bias'], 'before': info['stage'].get('curBefore'),
+                           'after': info['stage'].get('curAfter'), 'report': info['stage'].get('props'),
+                           'checker': 'Check/BiasCheckers.v %s_ok' % col}, facts)
+        if extra:
+            extra(ctx, req, res, info, v, facts)
+        if v[0] != 0 and (agree_names is None or name in agree_names):
+            broken.append((req, info, v))
+    if broken and not any(vv[2] for vv in ctx.violations):
+        req, info, v = broken[0]
+        ctx.violation('stage correspondence model/code broken on %d stages (%s: %s); every produced state still satisfies the checker'
+                      % (len(broken), info['bias'].get('name'), STAGE_TEXT.get(v[0], v[0])),
+                      {'broken': 'correspondence apply_bias (%s)' % pid, 'request': req, 'bias': info['bias'],
+                       'before': info['stage'].get('curBefore'), 'after': info['stage'].get('curAfter'),
+                       'report': info['stage'].get('props')}, found_input=False)
+    elif broken:
+        ctx.notes.append('stage correspondence also broken on %d stages' % len(broken))
+    return infos, verd, reqs, ress
+
+
+def gen_biased(names=None, method=None, length=None, prob_mix=False):
+    return lambda rnd: gen.biased_request(rnd, method=method, names=names, length=length, prob_mix=prob_mix)
+
+
+def seq_with(name):
+    """sequences that contain the bias of interest, alone, after and before other biases"""
+    def g(rnd):
+        k = rnd.choice([0, 0, 1, 1, 2])
+        pre = [rnd.choice(gen.BIASES) for _ in range(k)]
+        post = [rnd.choice(gen.BIASES) for _ in range(rnd.choice([0, 0, 1]))]
+        return gen.biased_request(rnd, names=pre + [name] + post, prob_mix=False)
+    return g
+
+
+@check('C16')
+def c16(ctx):
+    stage_check(ctx, 'C16', ['preferenceReversal'], [(1, seq_with('preferenceReversal'))], 200, 4000,
+                'requests over all methods with preference reversal alone, after and before other biases; all orderings and ratios, '
+                'with and without declared ranges, considered set equal to / smaller than the known set; one evaluation = one traced '
+                'application of the bias; distinct = (method, ordering, sizes, neighbouring biases)',
+                agree_names=['preferenceReversal'])
+    return ctx.finish('see rule in evidence', './check C16') if False else ctx.finish(
+        'traced applications of preferenceReversal inside random bias sequences over all methods (all orderings, ratios, declared and '
+        'observed ranges, considered = / subset of known); distinct = (method, ordering, sizes, bias sequence)', './check C16')
+
+
+@check('C17')
+def c17(ctx):
+    stage_check(ctx, 'C17', ['fatigue'], [(1, seq_with('fatigue'))], 200, 4000, '', agree_names=['fatigue'])
+    return ctx.finish(
+        'traced applications of fatigue inside random bias sequences over all methods: const and expFromZero ratio (incl. 0 and negative), '
+        'values of any sign, bounding off / 0.5 / 1 / 3 / non-negative, heuristics with a current choice; distinct = (method, function, '
+        'sizes, bias sequence)', './check C17')
+
+
+@check('C18')
+def c18(ctx):
+    stage_check(ctx, 'C18', ['criteriaConcealment', 'criteriaMixing'],
+                [(1, seq_with('criteriaConcealment')), (1, seq_with('criteriaMixing'))], 240, 4000, '',
+                agree_names=['criteriaConcealment', 'criteriaMixing'])
+    return ctx.finish(
+        'traced applications of criteriaConcealment / criteriaMixing inside random bias sequences over all methods: three reference '
+        'strategies, scaling in {-1, 0.5, 1, 3}, mixing ratios 0, 0.5, 1, bounding options, 1..5 criteria, repeated application; '
+        'distinct = (method, bias, reference type, sizes, bias sequence)', './check C18')
+
+
+@check('C19')
+def c19(ctx):
+    stage_check(ctx, 'C19', ['anchoring'], [(1, seq_with('anchoring'))], 200, 4000, '', agree_names=['anchoring'])
+    return ctx.finish(
+        'traced applications of anchoring inside random bias sequences over all methods: 1-3 anchoring alternatives with mixed '
+        'coefficients, ideal and nadir, linear / exponential / zero gain and loss, inline and newCriterion appliers with all options; '
+        'distinct = (method, applier, sizes, bias sequence)', './check C19')
+
+
+def c07_extra(ctx, req, res, info, v, facts):
+    name = info['bias'].get('name')
+    if v[0] == 2:
+        ctx.violation('the combination %s + %s is answered with an error: %s' % (req.get('preferenceFunction'), name, str(res.get('err'))[:200]),
+                      {'request': req, 'bias': info['bias'], 'before': info['stage'].get('curBefore'), 'error': res.get('err')}, facts)
+    if v[SCOL['inv']] != 0:
+        ctx.violation('after %s the working data are incoherent (a value or a parameter is missing for a current criterion)' % name,
+                      {'request': req, 'bias': info['bias'], 'after': info['stage'].get('curAfter')}, facts)
+    if v[SCOL['frame']] != 0:
+        ctx.violation('%s changed data it does not report (alternatives split, other values, criteria or parameters)' % name,
+                      {'request': req, 'bias': info['bias'], 'before': info['stage'].get('curBefore'),
+                       'after': info['stage'].get('curAfter')}, facts)
+
+
+@check('C07')
+def c07(ctx):
+    gens = [(3, gen_biased()), (1, gen_biased(length=1)), (1, gen_biased(length=2))]
+    infos, verd, reqs, ress = stage_check(ctx, None, None, gens, 400, 8000, '', extra=c07_extra)
+    # a valid request with valid biases must end in a ranking
+    for req, res in zip(reqs, ress):
+        if not res.get('ok') and res.get('kind') == 'panic':
+            st = res.get('stages') or []
+            # an error raised by the method after the biases ran (all stages returned) is a combination failure too
+            if st and all(s.get('curAfter') is not None for s in st):
+                mres = core.eval_term('C07m', 'is_ok (decide %s %s)' % (e2e.env_for(ctx.pipe, req, 256, e2e.exp_table(ctx.pipe, e2e.exp_args(req, res))),
+                                                                          emit.crequest(req)))
+                if 'true' in mres:
+                    ctx.violation('the method fails on the data the biases handed on: %s' % str(res.get('err'))[:200],
+                                  {'request': req, 'error': res.get('err')}, {'method': req.get('preferenceFunction')})
+    return ctx.finish(
+        'random requests: 7 methods x bias sequences of length 1-4 with repetition over the 6 biases and their options, considered = / '
+        'subset of known; every traced bias application is one evaluation; distinct = (method, bias, options, sizes, sequence)', './check C07')
